@@ -283,6 +283,37 @@ func ruleSwappedArguments(c *Ctx) {
 						return true
 					})
 				}
+				// an argument `x.F` for a parameter named like another field `x.G` of the same type
+				for i, a := range call.Args {
+					se, ok := ast.Unparen(a).(*ast.SelectorExpr)
+					if !ok {
+						continue
+					}
+					sel := info.Selections[se]
+					if sel == nil || sel.Kind() != types.FieldVal {
+						continue
+					}
+					pi := sig.Params().At(i)
+					ni := strings.ToLower(pi.Name())
+					if ni == "" || ni == "_" || strings.Contains(strings.ToLower(se.Sel.Name), ni) {
+						continue // named after the parameter (RequestId for id: a more specific name)
+					}
+					bt := sel.Recv()
+					if p, ok := bt.Underlying().(*types.Pointer); ok {
+						bt = p.Elem()
+					}
+					st, ok := bt.Underlying().(*types.Struct)
+					if !ok {
+						continue
+					}
+					for k := 0; k < st.NumFields(); k++ {
+						f := st.Field(k)
+						if strings.ToLower(f.Name()) == ni && types.Identical(f.Type(), sel.Type()) && types.Identical(f.Type(), pi.Type()) {
+							occ++
+							c.bad(fmt.Sprintf("swapped-arguments/%s.%s#%d", pk.Name, funcName(fd), occ), call.Pos(), fmt.Sprintf("%s is called with %s for its parameter %s although %s.%s exists: the wrong member is passed", fn.Name(), exprString(a), pi.Name(), exprString(se.X), f.Name()))
+						}
+					}
+				}
 				for i := 0; i < len(call.Args); i++ {
 					for j := i + 1; j < len(call.Args); j++ {
 						pi, pj := sig.Params().At(i), sig.Params().At(j)
